@@ -250,7 +250,7 @@ PROPS["C09"] = {
     "assumptions": ["a 12 s stall with goroutines parked in RWMutex.RLock/Lock is a deadlock (each operation takes milliseconds)"],
     "units": [
         {"name": "lock-monitor", "pkg": ".", "run": "TestVfC09Monitor", "checks": T(400, 20000), "shards": T(4, 16), "timeout": T(900, 3000), "transforms": C09_MONITOR, "env": ROOT_ENV},
-        {"name": "stress", "pkg": ".", "run": "TestVfC09Stress", "checks": T(60, 3000), "shards": T(4, 8), "timeout": T(900, 3000), "transforms": GSFA_FASTPOLL, "env": ROOT_ENV, "shrinktime": "20s"},
+        {"name": "stress", "pkg": ".", "run": "TestVfC09Stress", "checks": T(60, 3000), "shards": T(4, 8), "timeout": T(900, 3000), "transforms": GSFA_FASTPOLL, "env": ROOT_ENV, "shrinktime": "20s", "crash_is_violation": True},
     ],
 }
 
